@@ -116,7 +116,13 @@ class Blocked(Exception):
 # ---------------------------------------------------------------------------------------------
 # building a tree with the real operators
 # ---------------------------------------------------------------------------------------------
-def build(t, ir, stats):
+def _same(x, y, ir) -> bool:
+    if isinstance(x, ir.SymbolicDim) and isinstance(y, ir.SymbolicDim):
+        return x.value == y.value
+    return type(x) is type(y) and x == y
+
+
+def build(t, ir, stats, envs=()):
     """The tree built with ir.SymbolicDim's overloaded operators.  Integer leaves stay Python ints so
     that int-on-the-left reaches the reflected methods; where Python arithmetic would not involve the
     library at all (both operands ints) or the class has no reflected method (int // dim, int % dim) the
@@ -134,7 +140,7 @@ def build(t, ir, stats):
     if op == "int":
         return int(t["k"])
     if op in UN:
-        a = wrap(build(t["a"], ir, stats))
+        a = wrap(build(t["a"], ir, stats, envs))
         if op == "neg":
             return -a
         if op == "floor":
@@ -144,8 +150,8 @@ def build(t, ir, stats):
         if op == "trunc":
             return math.trunc(a)
         raise Blocked("no-operator", f"{op} has no operator on SymbolicDim")
-    a = build(t["a"], ir, stats)
-    b = build(t["b"], ir, stats)
+    a = build(t["a"], ir, stats, envs)
+    b = build(t["b"], ir, stats, envs)
     if isinstance(a, int) and isinstance(b, int):
         a = wrap(a)
     key = f"{op}:{'int' if isinstance(a, int) else 'dim'},{'int' if isinstance(b, int) else 'dim'}"
@@ -179,6 +185,23 @@ def build(t, ir, stats):
             pass
         # the builtins need an ordering the class does not define: min/max are supported textually
         stats[f"textual-{op}"] = stats.get(f"textual-{op}", 0) + 1
+        # the operand texts are the library's own printed forms; if one of them does not read back as the operand
+        # (that defect is reported on the operand's own tree) the textual construction is not the tree
+        for x in (a, b):
+            if isinstance(x, ir.SymbolicDim):
+                try:
+                    x2 = ir.SymbolicDim(x.value)
+                    for env in envs:
+                        try:
+                            want = x.evaluate(env)
+                        except Exception:  # noqa: BLE001
+                            continue
+                        if not _same(x2.evaluate(env), want, ir):
+                            raise Blocked("operand-text-misparsed", f"{op}({a}, {b}): {x.value!r} reads back differently")
+                except Blocked:
+                    raise
+                except Exception as e:  # noqa: BLE001
+                    raise Blocked("operand-text-rejected", f"{op}({a}, {b}): {e}") from e
         d = ir.SymbolicDim(f"{op}({a}, {b})")
         try:
             d.free_symbols()  # forces the parse
@@ -188,8 +211,8 @@ def build(t, ir, stats):
     raise Blocked("no-operator", f"{op} has no operator on SymbolicDim")
 
 
-def build_root(t, ir, stats):
-    d = build(t, ir, stats)
+def build_root(t, ir, stats, envs=()):
+    d = build(t, ir, stats, envs)
     if isinstance(d, int) and not isinstance(d, ir.SymbolicDim):
         d = ir.SymbolicDim(str(d))
     return d
@@ -262,7 +285,7 @@ def check_tree(rec, envs, ir, opts) -> dict:
                           exc=exc, extra=extra))
 
     try:
-        d = build_root(t, ir, stats)
+        d = build_root(t, ir, stats, envs)
     except Blocked as e:
         out["blocked"] = dict(why=e.why, msg=str(e))
         return out
@@ -559,10 +582,11 @@ def classify_grammar(f, t, envs, ir, expected_by_env) -> str:
     if not _text_fails(paren_text(t), t, envs, ir):
         return f"C16:grammar:{kind}:precedence:{t['op']}"
     sub = localise_text(t, envs, ir)
-    return f"C16:grammar:{kind}:{sub['op']}" + (":symbolic-exponent" if has_symbolic_exponent(sub) else "")
+    return (f"C16:grammar:{kind}:{sub['op']}" + (":symbolic-exponent" if has_symbolic_exponent(sub) else "")
+            + (":nested-mod" if sub["op"] == "mod" and "mod" in tree_ops(sub["a"]) else ""))
 
 
-def classify(f, root_op, ir, expected_by_env=None) -> str:
+def classify(f, root_op, ir, expected_by_env=None, nested_mod=False) -> str:
     """Structural signature of a failure."""
     check, kind = f["check"], f["kind"]
     if kind in ("rejected",) or (kind == "exception" and f.get("exc", "").startswith("ValueError: Unknown function")):
@@ -582,7 +606,7 @@ def classify(f, root_op, ir, expected_by_env=None) -> str:
                 pass
     if kind == "exception":
         return f"C16:{check}:exception:{(f.get('exc') or 'error').split(':')[0]}:{root_op}"
-    return f"C16:{check}:{kind}:{root_op}"
+    return f"C16:{check}:{kind}:{root_op}" + (":nested-mod" if nested_mod else "")
 
 
 def py_eval(t, env):
@@ -644,7 +668,7 @@ def localise(t, envs, ir):
         if not isinstance(c, dict) or c["op"] in ("sym", "int"):
             continue
         try:
-            d = build_root(c, ir, {})
+            d = build_root(c, ir, {}, envs)
         except Exception:  # noqa: BLE001
             continue
         for env in envs:
@@ -658,6 +682,16 @@ def localise(t, envs, ir):
             if bad:
                 return localise(c, envs, ir)
     return t
+
+
+def tags(t) -> str:
+    """structural qualifiers of a failing (sub-)tree used in signatures"""
+    out = ""
+    if t["op"] == "mod" and "mod" in tree_ops(t["a"]):
+        out += ":nested-mod"
+    if not has_syms(t):
+        out += ":closed"
+    return out
 
 
 def has_syms(t) -> bool:
@@ -730,7 +764,9 @@ def run_chunk(task) -> dict:
                 if f["check"] == "evaluate" and f["kind"] in ("wrong-value", "wrong-type", "exception"):
                     if where is None:
                         where = localise(t, envs, ir)
-                    sig = f"C16:evaluate:{f['kind']}:{where['op']}" + ("" if has_syms(where) else ":closed")
+                    exc = (f.get("exc") or "").split(" ")[0].split(":")[0]
+                    sig = (f"C16:evaluate:{f['kind']}:" + (exc + ":" if f["kind"] == "exception" and exc else "") + where["op"]
+                           + tags(where))
                     if sig in seen:
                         continue
                     seen.add(sig)
@@ -745,7 +781,7 @@ def run_chunk(task) -> dict:
                     exp = None  # residual text: its own symbols; classified without the hypothesis test
                     if f["env"] is not None:
                         exp = [(f["env"], vals[envs.index(f["env"])])]
-                sig = classify(f, root, ir, exp)
+                sig = classify(f, root, ir, exp, nested_mod=(root == "mod" and "mod" in tree_ops(t["a"])))
                 if (sig, f.get("text")) in seen:
                     continue
                 seen.add((sig, f.get("text")))
